@@ -53,7 +53,7 @@ class BaseCurve(Intface_BaseCurve):
         selfcopy.knotvector = newknotvec
         othercopy = copy(other)
         othercopy.knotvector = newknotvec
-        for poi, qoi in zip(self.ctrlpoints, othercopy.ctrlpoints):
+        for poi, qoi in zip(selfcopy.ctrlpoints, othercopy.ctrlpoints):
             if norm(poi - qoi) > 1e-9:
                 return False
         return True
